@@ -10,13 +10,24 @@ Open Scope string_scope.
 Definition collection_ty (t : string) : bool :=
   mem t ["HashMap"; "HashSet"; "HashMapRef"; "HashSetRef"].
 
-(* the result's type mentions the lifetime of `self` (an elided return lifetime is the lifetime
-   of `&self` by the elision rules) *)
+(* x <= y: lifetime x cannot outlive lifetime y - they are the same, or a bound `'y: 'x` (y outlives
+   x) is declared on the method or its impl, directly or through a chain of such bounds *)
+Fixpoint lt_le (fuel : nat) (bs : list (string * string)) (x y : string) : bool :=
+  (x =? y) ||
+  match fuel with
+  | O => false
+  | S f => existsb (fun b => (snd b =? x) && lt_le f bs (fst b) y) bs
+  end.
+(* EVERY lifetime the result's type carries - every reference handed out, each half of a pair - is
+   bounded by the lifetime of `self` (an elided return lifetime is the lifetime of `&self` by the
+   elision rules) ... *)
 Definition tied_to_self (r : sigrow) : bool :=
-  negb (g_self r =? "") && negb (g_self r =? "owned") && mem (g_self r) (g_ret_lts r).
-(* ... and the lifetime of every guard parameter *)
+  negb (g_self r =? "") && negb (g_self r =? "owned") &&
+  negb (match g_ret_lts r with [] => true | _ => false end) &&
+  forallb (fun x => lt_le 4 (g_outlives r) x (g_self r)) (g_ret_lts r).
+(* ... and by the lifetime of every guard parameter *)
 Definition tied_to_guards (r : sigrow) : bool :=
-  forallb (fun g => mem g (g_ret_lts r) && negb (g =? "_")) (g_guards r).
+  forallb (fun g => negb (g =? "_") && forallb (fun x => lt_le 4 (g_outlives r) x g) (g_ret_lts r)) (g_guards r).
 
 Definition borrow_row (r : sigrow) : bool := g_borrow r && collection_ty (g_ty r).
 Definition row_tied (r : sigrow) : bool := tied_to_self r && tied_to_guards r.
